@@ -10,6 +10,8 @@
    {idtor in [-1, max+2], addr NULL or a live object of the family the table names}: exactly one release
    of addr by the matching deallocator (after the class's destructor when it has one) for table indices,
    none otherwise; afterwards addr = NULL and idtor = 0; a second call releases nothing.
+4. The copy-then-release helpers (ShroudCopyArray, ShroudCopyStringAndFree) from every pre-state within the
+   bounds: the memory destructor runs exactly once on the context's capsule and the copy stays in bounds.
 """
 import json
 import os
@@ -91,6 +93,18 @@ class DtorHarness(object):
             o.tag["class"] = self.expect["type"] if self.expect else "?"
             if self.expect and self.expect["type"] == "std::string":
                 ex.strings[(o.id, 0)] = models.new_sstr(ex, z3.BitVecVal(0, 64), lambda i: z3.BitVecVal(0, 8))
+            self.storage = None
+            if self.expect and self.expect["type"].startswith("std::vector<"):
+                # libstdc++ layout {begin, end, end_of_storage}: empty, or two elements in allocator storage
+                if e.branch(z3.Bool("held_vector_is_empty")):
+                    for off in (0, 8, 16):
+                        ex.store_ptr(Ptr(o, off), NULL)
+                else:
+                    st = ex.new_obj("vector_storage", 16, "heap", "new")
+                    ex.store_ptr(Ptr(o, 0), Ptr(st, 0))
+                    ex.store_ptr(Ptr(o, 8), Ptr(st, 16))
+                    ex.store_ptr(Ptr(o, 16), Ptr(st, 16))
+                    self.storage = st
             cap.cells[0] = (8, Ptr(o, 0))
             self.obj = o
         cap.cells[8] = (4, z3.BitVecVal(self.idtor, 32))
@@ -118,7 +132,16 @@ class DtorHarness(object):
             if rel1:
                 fail = "idtor %d%s: the release function frees memory although nothing is owned" % (self.idtor, " with a NULL address" if self.addr_null else "")
         else:
-            if len(rel1) != 1 or rel1[0][2] is not self.obj:
+            st = getattr(self, "storage", None)
+            if st is not None:
+                rs = [ev for ev in rel1 if ev[2] is st]
+                rel1 = [ev for ev in rel1 if ev[2] is not st]
+                if len(rs) != 1:
+                    fail = "idtor %d: the element storage of the owned %s is released %d times, expected exactly once" % (
+                        self.idtor, self.expect["type"], len(rs))
+            if fail:
+                pass
+            elif len(rel1) != 1 or rel1[0][2] is not self.obj:
                 fail = "idtor %d: the owned %s is released %d times, expected exactly once" % (self.idtor, self.expect["type"], len(rel1))
             elif rel1[0][1] != self.expect["family"]:
                 fail = "idtor %d: %s allocated with %s is released with %s" % (self.idtor, self.expect["type"], self.expect["family"], rel1[0][1])
@@ -146,6 +169,110 @@ class DtorHarness(object):
 
 def make_dtor(**kw):
     return DtorHarness(**kw)
+
+
+class CopyReleaseHarness(object):
+    """<PREFIX>ShroudCopyArray / <PREFIX>ShroudCopyStringAndFree: the copy-then-release step the Fortran
+    wrapper calls exactly once for a std::vector / allocatable string held in a context.  From every
+    pre-state {element length, element count / string length, destination size}: the memory destructor
+    runs exactly once on the context's capsule, on every path, and the copy stays inside both buffers."""
+
+    def __init__(self, build_key, helper, twin=False):
+        self.build_key, self.helper, self.twin = tuple(build_key), helper, twin
+
+    def run(self, e):
+        b = lc.get_build(self.build_key)
+        m, fn = None, None
+        for fname, mod in b.modules.items():
+            hits = [n for n, f in mod.functions.items() if f.defined and n.endswith(self.helper)]
+            if hits:
+                m, fn = mod, hits[0]
+        if m is None:
+            raise Unsupported("no %s in %s" % (self.helper, self.build_key))
+        ex = Executor(e, m, cap=24 if self.helper.endswith("CopyArray") else 4)
+        self.ex = ex
+        self.released = []
+        h = self
+
+        def ext(ex_, name, argv, argt, rt):
+            if name.endswith("_SHROUD_memory_destructor"):
+                h.released.append(argv[0])
+                return None
+            raise Unsupported("%s calls %s" % (fn, name))
+        ex.stubs["*"] = ext
+        for name, f in m.functions.items():
+            if name.endswith("_SHROUD_memory_destructor"):
+                ex.stubs[name] = ext
+        fnobj = m.functions[fn]
+        rs = ir.resolve(ir.resolve(fnobj.params[0][0]).to)
+        data = ex.new_obj("context", ir.size_of(rs), "heap")
+        self.data = data
+        held = ex.new_obj("held_cxx_object", 24, "heap", "new")
+        ex.store_ptr(Ptr(data, ir.field_offset(rs, 0)), Ptr(held, 0))
+        ex.store_int(Ptr(data, ir.field_offset(rs, 0) + 8), z3.BitVecVal(1, 32), 32)
+        self.v = {}
+        if self.helper.endswith("CopyArray"):
+            el = z3.BitVec("elem_len", 64)
+            n = z3.BitVec("size", 64)
+            dn = z3.BitVec("c_var_size", 64)
+            e.assume(z3.Or([el == k for k in (1, 2, 4, 8)]))
+            for k in (1, 2, 4):          # the element length is a compile-time constant of the wrapper: one path each
+                if e.branch(el == k):
+                    break
+            e.assume(z3.And(z3.ULE(n, 3), z3.ULE(dn, 3)))
+            self.v = {"elem_len": el, "size": n, "c_var_size": dn}
+            if e.branch(n == 0) and e.branch(z3.Bool("empty_vector_data_is_null")):
+                src = NULL
+            else:
+                so = lc.sym_buffer(ex, "vector_storage", z3.simplify(el * n), "heap", "new")
+                src = Ptr(so, 0)
+            dst = lc.sym_buffer(ex, "fortran_array", z3.simplify(el * dn))
+            ex.store_int(Ptr(data, ir.field_offset(rs, 3)), el, 64)
+            ex.store_int(Ptr(data, ir.field_offset(rs, 4)), n, 64)
+            third = dn
+        else:
+            L = z3.BitVec("string_length", 64)
+            dn = z3.BitVec("c_var_len", 64)
+            e.assume(z3.And(z3.ULE(L, 4), z3.ULE(dn, 5)))
+            self.v = {"string_length": L, "c_var_len": dn}
+            so = lc.sym_buffer(ex, "string_storage", z3.simplify(L + 1), "heap", "new")
+            for i in range(5):
+                I = z3.BitVecVal(i, 64)
+                e.assume(z3.Implies(z3.ULT(I, L), z3.Select(so.arr, I) != 0))
+            so.arr = z3.Store(so.arr, L, z3.BitVecVal(0, 8))
+            src = Ptr(so, 0)
+            dst = lc.sym_buffer(ex, "fortran_character", dn)
+            ex.store_int(Ptr(data, ir.field_offset(rs, 3)), L, 64)
+            ex.store_int(Ptr(data, ir.field_offset(rs, 4)), z3.BitVecVal(1, 64), 64)
+            third = dn
+        ex.store_ptr(Ptr(data, ir.field_offset(rs, 1)), src)
+        ex.call_function(fn, [Ptr(data, 0), Ptr(dst, 0), third])
+        return ex
+
+    def witness(self, m, what):
+        return {"kernel": "copy-release", "build": list(self.build_key), "helper": self.helper,
+                "inputs": {k: lc.mval(m, v) for k, v in self.v.items()}, "what": what}
+
+    def judge(self, e, kind, value):
+        cls = "copy-release/%s" % self.helper
+        m = e.model()
+        if kind == "exc":
+            if isinstance(value, MemViolation):
+                return {"cls": cls, "violation": self.witness(value.model or m, "memory safety: %s" % value), "vkey": "cr:%s:%s" % (self.helper, value.kind)}
+            return {"cls": cls, "violation": self.witness(m, "unexpected %s: %s" % (type(value).__name__, str(value)[:160])), "vkey": "cr:exc"}
+        fail = None
+        ok = [p for p in self.released if isinstance(p, Ptr) and p.obj is self.data and conc(p.off) == 0]
+        if len(self.released) != 1 or len(ok) != 1:
+            fail = "%s releases the C++ object held by the context %d times, expected exactly once" % (self.helper, len(ok))
+        if self.twin and not fail:
+            fail = "reachability twin"
+        if fail:
+            return {"cls": cls, "violation": self.witness(m, fail), "vkey": "cr:%s:%s" % (self.helper, fail[-40:])}
+        return {"cls": cls, "sample": self.witness(m, None)}
+
+
+def make_copyrel(**kw):
+    return CopyReleaseHarness(**kw)
 
 
 def main():
@@ -217,6 +344,13 @@ def main():
             for null in (False, True):
                 dspecs.append(("harness.C06", "make_dtor", dict(build_key=list(bk), idtor=k, addr_null=null, expect=exp)))
                 dlabels.append("%s destructor idtor=%d%s" % (bk[0], k, " (NULL)" if null else ""))
+    ndtor = len(dspecs)
+    for bk in BUILDS:
+        b = lc.get_build(bk)
+        for helper in ("ShroudCopyArray", "ShroudCopyStringAndFree"):
+            if any(n.endswith(helper) and f.defined for mod in b.modules.values() for n, f in mod.functions.items()):
+                dspecs.append(("harness.C06", "make_copyrel", dict(build_key=list(bk), helper=helper)))
+                dlabels.append("%s %s" % (bk[0], helper))
     daccs = driver.explore_many(dspecs, split_depth=4, time_budget_s=600, max_decisions=50000)
     dtotal = driver.Acc()
     for lab, a in zip(dlabels, daccs):
@@ -264,8 +398,10 @@ def main():
         "functions_encoded": labels + sorted(set(l.split(" idtor")[0] for l in dlabels)),
         "outside_the_harness": [{"function": c, "reason": r} for c, r in skipped],
         "handoff_table": {"%s" % bk[0]: {str(k): sorted(map(list, v)) for k, v in t.items()} for bk, t in table.items()},
-        "destructor_prestates": len(dspecs),
-        "bounds": {"string_capacity": cap, "idtor_range": "[-1, max index + 2] x {NULL, live object}", "libraries": [k[0] for k in BUILDS]},
+        "destructor_prestates": ndtor,
+        "copy_release_helpers": dlabels[ndtor:],
+        "bounds": {"string_capacity": cap, "idtor_range": "[-1, max index + 2] x {NULL, live object}",
+                   "copy_release": "elem_len in {1,2,4,8}, element counts 0..3 on both sides, empty vector with NULL or non-NULL data; strings 0..4 chars into 0..5 bytes", "libraries": [k[0] for k in BUILDS]},
         "solver": {"name": "z3 " + z3.get_version_string(), "queries": total.stats.queries + dtotal.stats.queries,
                    "solver_s": round(total.stats.solver_s + dtotal.stats.solver_s, 2)},
         "paths": total.stats.paths + dtotal.stats.paths,
@@ -288,6 +424,8 @@ def resolve_symbolic(w):
         a = driver.explore(("harness.C06", "make_dtor", dict(build_key=w["build"], idtor=w["idtor"], addr_null=w["addr_null"], expect=w["expect"])), nworkers=1)
     elif w.get("kernel") == "wrapper":
         a = driver.explore(("harness.wrapsym", "make", dict(build_key=w["build"], cname=w["function"], cap=w.get("cap", 3))), nworkers=1)
+    elif w.get("kernel") == "copy-release":
+        a = driver.explore(("harness.C06", "make_copyrel", dict(build_key=w["build"], helper=w["helper"])), nworkers=1)
     elif w.get("kernel") == "table":
         return w["what"]
     else:
